@@ -335,6 +335,12 @@ class _ListDict_(object):
                 self.max_weight_count -= 1
                 if self.max_weight_count == 0 and len(self)>0:
                     self._update_max_weight()
+            if len(self.items) == 0:
+                #an empty collection forgets its maximum.  Otherwise a stale 
+                #large max_weight makes the rejection sampling of much 
+                #lighter items inserted later take max_weight/weight rounds.
+                self.max_weight = 0
+                self.max_weight_count = 0
 
     def choose_random(self):
         # r'''chooses a random node.  If there is a weight, it will use rejection
